@@ -169,7 +169,111 @@ def _factory():
     return fn, on_path, collect
 
 
+# ---------------------------------------------------------------------------
+# argument form: the language of argument strings the tokenizer accepts, decided by the solver
+
+DOCUMENTED_FORM = r"(\w+)=(.*)"  # <key>=<val>, README and the error message of params_from_cmd
+
+
+def tokenizer_calls(probe: str) -> list[tuple[str, str]]:
+    """(function, pattern) of every call of the re module the real params_from_cmd makes on the whole argument."""
+    import types
+
+    from avocado_i2n import cmd_parser
+
+    calls: list[tuple[str, str]] = []
+    shim = types.ModuleType("re_shim")
+    shim.__dict__.update({k: v for k, v in vars(re).items() if not k.startswith("__")})
+    for fn in ("match", "search", "fullmatch"):
+        def rec(pattern: Any, string: str, *a: Any, _fn: str = fn, **kw: Any) -> Any:
+            if string == probe:
+                calls.append((_fn, pattern if isinstance(pattern, str) else pattern.pattern))
+            return getattr(re, _fn)(pattern, string, *a, **kw)
+        setattr(shim, fn, rec)
+    old = cmd_parser.re
+    cmd_parser.re = shim
+    try:
+        run_real([probe])
+    finally:
+        cmd_parser.re = old
+    return calls
+
+
+def accepted_language(fn: str, pattern: str) -> Any:
+    import z3
+    from engine import smtgen
+
+    tr = smtgen.Translated(re.compile(pattern))
+    body = smtgen.seq_to_z3(tr.items)
+    if fn != "fullmatch" and not tr.anchored_end:
+        body = z3.Concat(body, smtgen.sigma_star())
+    if fn == "search" and not tr.anchored_start:
+        body = z3.Concat(smtgen.sigma_star(), body)
+    return body
+
+
+def malformed_verdict(arg: str) -> bool:
+    """True iff the real params_from_cmd rejects the argument as malformed (not of the form <key>=<val>)."""
+    kind, msg = run_real([arg])
+    return kind == "ValueError" and "malformed" in str(msg)
+
+
+def replay_form(data: dict[str, Any]) -> tuple[bool, str]:
+    arg, want_rejected = data["form_arg"], data["want_rejected"]
+    got = malformed_verdict(arg)
+    return (got != want_rejected), f"argument {arg!r}: rejected as malformed={got}, documented form {DOCUMENTED_FORM!r} says {want_rejected}"
+
+
+def check_argument_form(ctx: common.Context) -> None:
+    import time
+
+    import z3
+    from engine import smtgen
+
+    probe = "zz_probe=1"
+    calls = tokenizer_calls(probe)
+    result: dict[str, Any] = {"tokenizer_calls": calls, "max_length": 12}
+    if calls:
+        fn, pattern = calls[0]
+        accepted = accepted_language(fn, pattern)
+        documented = accepted_language("match", DOCUMENTED_FORM)
+        x = z3.String("arg")
+        for name, inside, outside, want_rejected in (("accepted_but_not_of_the_documented_form", accepted, documented, True), ("documented_form_but_rejected", documented, accepted, False)):
+            sol = z3.Solver()
+            sol.set("timeout", 60000)
+            sol.add(z3.Length(x) <= 12, z3.InRe(x, inside), z3.Not(z3.InRe(x, outside)))
+            t0 = time.time()
+            r = str(sol.check())
+            ctx.obligations += 1
+            result[name] = {"result": r, "seconds": round(time.time() - t0, 2)}
+            if r == "unsat":
+                ctx.discharged += 1
+            elif r == "sat":
+                arg = smtgen._unescape(sol.model()[x].as_string())
+                result[name]["witness"] = arg
+                ctx.report(f"C11 argument form {name}", f"the tokenizer ({fn} {pattern!r}) and the documented form <key>=<val> disagree on {arg!r}", {"form_arg": arg, "want_rejected": want_rejected}, replay_form)
+            else:
+                ctx.note_inconclusive(f"argument form query {name}: {r}")
+        # reachability twin: the accepted language is not empty
+        sol = z3.Solver()
+        sol.add(z3.Length(x) <= 12, z3.InRe(x, accepted))
+        if str(sol.check()) != "sat":
+            ctx.note_inconclusive("vacuous: the translated tokenizer accepts nothing")
+    else:
+        result["note"] = "the tokenizer does not use the re module on the whole argument: language query not applicable, concrete probes only"
+    # concrete probes of the same clause (also cover a tokenizer that is not regex based)
+    probes = [("only-vm1=Fedora", True), ("--only=minimal", True), ("=x", True), ("a b=c", True), ("no.vm2=Win10", True), ("@vms=vm2", True), ("abc", True), ("", True), ("k_1=", False), ("key=a=b", False), ("key=--x", False)]
+    for arg, want_rejected in probes:
+        got = malformed_verdict(arg)
+        if got != want_rejected:
+            ctx.report(f"C11 argument form probe {arg!r}", f"argument {arg!r}: rejected as malformed={got}, documented form says {want_rejected}", {"form_arg": arg, "want_rejected": want_rejected}, replay_form)
+    result["probes"] = len(probes)
+    ctx.part("argument form", **result)
+
+
 def replay(data: dict[str, Any]) -> tuple[bool, str]:
+    if "form_arg" in data:
+        return replay_form(data)
     if "args" in data:
         ok, _cls, msg = compare(data["args"])
         return (not ok), msg
@@ -246,6 +350,7 @@ def run(ctx: common.Context) -> None:
     else:
         ctx.discharged += 1
     ctx.part("override order", result=msg)
-    ctx.bounds = {"argument_list_length": f"0..{_cfg['max_len']}", "argument_menu": _cfg["menu"]}
+    check_argument_form(ctx)
+    ctx.bounds = {"argument_list_length": f"0..{_cfg['max_len']}", "argument_menu": _cfg["menu"], "argument_form": "every single argument string of <= 12 characters over printable ASCII and tab (language inclusion both ways between the tokenizer's regular expression as called and the documented form <key>=<val>, z3 sequence theory)"}
     ctx.assumptions = ["argument strings are concrete menu entries (they pass re.match and the Cartesian parser); the equivalence with what the Cartesian parser yields for the composed restrictions is parser semantics and outside the claim", "reference function written from the README and the selftests' documented expectations (a later nets restriction replaces an earlier one)"]
     ctx.coverage["explanation"] = "exhaustive solver-driven enumeration of argument lists over a menu, real params_from_cmd against a reference function of the documentation"
